@@ -65,6 +65,9 @@ func (p *pp) Print(args ...interface{}) {
 	// The nested printer writes on behalf of the same operand: an
 	// enclosing Safe()/Unsafe() override keeps applying to it.
 	np.override = p.override
+	if verifOn {
+		verifNested(p, np)
+	}
 	np.doPrint(args)
 	p.buf = np.buf
 	np.buf = buffer{}
@@ -79,6 +82,9 @@ func (p *pp) Printf(format string, arg ...interface{}) {
 	// The nested printer writes on behalf of the same operand: an
 	// enclosing Safe()/Unsafe() override keeps applying to it.
 	np.override = p.override
+	if verifOn {
+		verifNested(p, np)
+	}
 	np.doPrintf(format, arg)
 	p.buf = np.buf
 	np.buf = buffer{}
